@@ -8,7 +8,7 @@ use std::collections::HashMap;
 
 pub const LEVEL: &str = "exploration";
 pub const EXHAUSTIVE: bool = true;
-pub const RULE: &str = "enumerated completely: every key code 0..=65535 x modifier byte (quick: 16 patterns covering all 4 Shift/AltGr combinations plus stray low and high bits; thorough: all 256) x numpad on/off x {bundled Probhat, synthetic layout} x start state {idle, after the neutral digit key}; all composition helpers and suggestions off. Oracle: layout JSON read independently through a key-name table transcribed from riti.h: expected text = entry for the key in the plane selected by the AltGr bit only (numpad entries only while the option is on); empty / missing / unknown => pre-edit text and session flag unchanged. Non-trivial: the key has a non-empty assignment in at least one plane or on the number pad; distinct by (layout, numpad, state, code, modifier).";
+pub const RULE: &str = "enumerated completely: every key code 0..=65535 x modifier byte (quick: 16 patterns covering all 4 Shift/AltGr combinations plus stray low and high bits; thorough: all 256) x numpad on/off x {bundled Probhat, synthetic layout, a layout of exotic values: white space only, leading/trailing white space, lone joiners, ASCII, emoji, long values} x start state {idle, after the neutral digit key}; all composition helpers and suggestions off. Oracle: layout JSON read independently through a key-name table transcribed from riti.h: expected text = entry for the key in the plane selected by the AltGr bit only (numpad entries only while the option is on); empty / missing / unknown => pre-edit text and session flag unchanged. Non-trivial: the key has a non-empty assignment in at least one plane or on the number pad; distinct by (layout, numpad, state, code, modifier).";
 pub const ASSUMPTIONS: &[&str] = &[
     "key-name table transcribed by hand from include/riti.h and the layout file format",
     "the digit key 1 is neutral for every always-on composition rule",
@@ -84,7 +84,7 @@ pub fn run(run: &Run) {
     after_layout_switch(run);
     let mods = modifiers(run.tier);
     let mut items = vec![];
-    for layout in [Layout::Probhat, Layout::Synthetic] {
+    for layout in [Layout::Probhat, Layout::Synthetic, Layout::Exotic] {
         for numpad in [false, true] {
             for after_neutral in [false, true] {
                 for chunk in 0..64u32 {
@@ -94,7 +94,7 @@ pub fn run(run: &Run) {
         }
     }
     let lays: HashMap<Layout, HashMap<String, String>> =
-        [Layout::Probhat, Layout::Synthetic].into_iter().map(|l| (l, load_layout_json(l))).collect();
+        [Layout::Probhat, Layout::Synthetic, Layout::Exotic].into_iter().map(|l| (l, load_layout_json(l))).collect();
     let neutral_code = keys().code_for('1');
     run.exhaustive(
         "all-key-codes",
@@ -135,10 +135,11 @@ pub fn run(run: &Run) {
 /// layout's texts.  Every published key x 4 modifiers x numpad, for each ordered pair of layouts
 /// (incl. phonetic -> fixed), from idle.
 fn after_layout_switch(run: &Run) {
-    let lays: HashMap<Layout, HashMap<String, String>> = [Layout::Probhat, Layout::Synthetic].into_iter().map(|l| (l, load_layout_json(l))).collect();
+    let lays: HashMap<Layout, HashMap<String, String>> = [Layout::Probhat, Layout::Synthetic, Layout::Twin, Layout::Exotic].into_iter().map(|l| (l, load_layout_json(l))).collect();
     let mut items = vec![];
-    for from in [Layout::Phonetic, Layout::Probhat, Layout::Synthetic] {
-        for to in [Layout::Probhat, Layout::Synthetic] {
+    // Twin = another layout under the same file NAME as the bundled Probhat.json (another directory)
+    for from in [Layout::Phonetic, Layout::Probhat, Layout::Synthetic, Layout::Twin, Layout::Exotic] {
+        for to in [Layout::Probhat, Layout::Synthetic, Layout::Twin, Layout::Exotic] {
             if from != to {
                 for numpad in [false, true] {
                     items.push((from, to, numpad));
@@ -182,7 +183,14 @@ fn after_layout_switch(run: &Run) {
 }
 
 pub fn replay(_run: &Run, case: &Value) -> Result<(), Failure> {
-    let layout = if case["layout"].as_str() == Some("Synthetic") { Layout::Synthetic } else { Layout::Probhat };
+    let by_name = |n: Option<&str>| match n {
+        Some("Synthetic") => Layout::Synthetic,
+        Some("Twin") => Layout::Twin,
+        Some("Exotic") => Layout::Exotic,
+        Some("Phonetic") => Layout::Phonetic,
+        _ => Layout::Probhat,
+    };
+    let layout = by_name(case["layout"].as_str());
     let it = Item {
         layout,
         numpad: case["numpad"].as_bool().unwrap_or(false),
@@ -197,7 +205,7 @@ pub fn replay(_run: &Run, case: &Value) -> Result<(), Failure> {
     let mut ctx = Ctx::new(opts, &sb).map_err(|p| Failure::new(panic_kind(&p), p.to_string(), case.clone()))?;
     if let Some(from) = case["switched_from"].as_str() {
         let mut o1 = opts;
-        o1.layout = match from { "Phonetic" => Layout::Phonetic, "Synthetic" => Layout::Synthetic, _ => Layout::Probhat };
+        o1.layout = by_name(Some(from));
         ctx = Ctx::new(o1, &sb).map_err(|p| Failure::new(panic_kind(&p), p.to_string(), case.clone()))?;
         let _ = ctx.type_text("k1");
         let _ = ctx.finish();
